@@ -16,7 +16,9 @@ Algs == {"sha1", "sha256"}
 Scn == [signResp : BOOLEAN, signAssert : BOOLEAN, enc : BOOLEAN, alg : Algs, binding : {"post", "redirect", "soap"},
         wantResp : BOOLEAN, wantAssert : BOOLEAN, wantEither : BOOLEAN, nameid : {"transient", "persistent"},
         sessionExpiry : BOOLEAN, vclass : ValueClasses, unknownAttr : BOOLEAN,
-        skew : {0, 180}]            \* the SP's accepted_time_diff: widens acceptance, never what is reported
+        skew : {0, 180},
+        \* authentication context the IdP was asked to state: a class with or without an authenticating authority
+        authnCtx : {"password_authority", "tls_plain", "nonascii_authority"}]            \* the SP's accepted_time_diff: widens acceptance, never what is reported
 
 \* what the built response carries (Entity._response): with encryption the assertion signature is made
 \* before encrypting and lives inside the cipher text
@@ -29,6 +31,7 @@ Satisfies(s) == /\ (s.wantResp => RespSig(s) # "absent") /\ (s.wantAssert => Ass
 WellFormed(s) == /\ Satisfies(s)
                  /\ (s.vclass # "plain" => ~s.wantEither /\ s.nameid = "transient" /\ s.alg = "sha256" /\ ~s.unknownAttr)
                  /\ (s.unknownAttr => s.binding = "post" /\ ~s.enc)
+                 /\ (s.authnCtx # "password_authority" => s.vclass = "plain" /\ ~s.wantEither /\ s.alg = "sha256" /\ ~s.unknownAttr /\ s.skew = 0)
                  /\ (s.skew # 0 => s.vclass = "plain" /\ ~s.wantEither /\ s.alg = "sha256" /\ s.nameid = "transient" /\ ~s.unknownAttr)
 
 VARIABLES scn, pc
